@@ -446,3 +446,113 @@ PLAN["C18"] = {
 }
 LEVEL_TEXT["C18"] = ("exhaustive enumeration of guard operation sequences to depth 3-4 for K in {1,2,3,5}, hazard pointers and hazard eras, static and dynamic strategy, with thread exit and "
                      "control-block reuse, against a slot-counting reference model")
+
+# ------------------------------------------------------------------------------------------------- C03
+TITLES["C03"] = "Correct under the C++ memory model: race-free, robust to weak executions"
+def _w(bin, test, c=1, d=1, **kw):
+    return run(bin, test, c=c, d=d, mode="wmm", **kw)
+_c03_quick = \
+    [_w("queues", "%s_%s" % (q, r)) for q in ["ms", "ram_e1p1", "ram_e2p0", "nik_e1p1", "nik_e2p0"] for r in ["hp", "ebr", "lfrc"]] + \
+    [_w("queues", "%s_stamp" % q, c=0) for q in ["ms", "ram_e1p1", "nik_e1p1"]] + \
+    [_w("reclaim", "proto_" + r, opt={"ops": 0x62}) for r in RECL_ALL if r != "stamp"] + [_w("reclaim", "proto_stamp", c=0, opt={"ops": 0x62})] + \
+    [_w("reclaim", "proto_" + r, opt={"ops": 0x8c}) for r in ["hp", "he", "qsbr", "ebr", "nebr", "debra"]] + \
+    [_w("bounded", "vyukov", opt={"cap": 2}), _w("bounded", "nikolaev", opt={"cap": 2}), _w("bounded", "nikolaev", opt={"cap": 1}),
+     _w("kfifo", "kb", opt={"k": 2, "segs": 2}), _w("kfifo", "kb", d=2, opt={"k": 1, "segs": 2}), _w("kfifo", "kf_hp", opt={"k": 2}), _w("kfifo", "kf_ebr", opt={"k": 1}),
+     _w("deque", "grow2"), _w("deque", "fixed2"), _w("lr_seqlock", "left_right", c=2), _w("lr_seqlock", "seqlock_b16_s2", c=2, d=2), _w("lr_seqlock", "seqlock_b16_s1", c=2),
+     _w("hm", "set_hp", opt={"ops": 0x7, "keys": 1}), _w("hm", "set_ebr", opt={"ops": 0x3, "prefill": 3}), _w("hm", "map_b1_lfrc", opt={"ops": 0x23, "prefill": 2, "keys": 1}),
+     _w("hm", "iset_hp", opt={"keys": 2, "m": 1}), _w("hm", "imap_b1_ebr", opt={"keys": 2, "m": 1}),
+     _w("vy", "map_st_s1_hp", opt={"m": 1, "keys": 5, "prefill": 31, "cap": 128, "ops": 0x7}), _w("vy", "map_tt_i1_hp", opt={"m": 1, "keys": 4, "prefill": 7, "cap": 1, "ops": 0x7}),
+     _w("ownership", "ms_up_hp"), _w("ownership", "ram_e2_up_ebr"), _w("ownership", "nik_e1_up_hp"), _w("ownership", "kf_k2_up_hp"), _w("ownership", "vb_s2_up"), _w("ownership", "nb_c2_up"),
+     _w("guards", "snap_hp", c=2), _w("guards", "snap_ebr", c=2),
+     _w("queues", "ms_hp", variant="tsanv"), _w("queues", "ram_e1p1_ebr", variant="tsanv"), _w("queues", "nik_e1p1_hp", variant="tsanv"),
+     _w("reclaim", "proto_hp", variant="tsanv", opt={"ops": 0x62}), _w("reclaim", "proto_ebr", variant="tsanv", opt={"ops": 0x62}), _w("reclaim", "proto_stamp", c=0, variant="tsanv", opt={"ops": 0x62}),
+     run("queues", "ms_hp", c=2, variant="tsanv"), run("reclaim", "proto_qsbr", c=1, variant="tsanv", opt={"ops": 0xee})]
+_c03_thorough = []
+for q in ["ms", "ram_e1p1", "ram_e2p0", "nik_e1p1", "nik_e2p0"]:
+    for r in RECL_ALL:
+        st = r == "stamp"
+        _c03_thorough.append(_w("queues", "%s_%s" % (q, r), c=1 if st else 2, d=1, weight=3))
+        if not st:
+            _c03_thorough.append(_w("queues", "%s_%s" % (q, r), c=1, d=2, W=64, weight=1))
+for r in RECL_ALL:
+    st = r == "stamp"
+    _c03_thorough.append(_w("reclaim", "proto_" + r, c=1 if st else 2, d=1, opt={"ops": 0x62}, weight=3))
+    _c03_thorough.append(_w("reclaim", "proto_" + r, c=1, d=1 if st else 2, W=0, opt={"ops": 0xee}, weight=3))
+    _c03_thorough.append(_w("reclaim", "proto_" + r, c=1, d=1, opt={"ops": 0x62, "gens": 2, "m": 1, "allow_update_only": 1}, weight=1))
+_c03_thorough += [
+    _w("bounded", "vyukov", c=2, opt={"cap": 2}, weight=3), _w("bounded", "nikolaev", c=2, opt={"cap": 2}, weight=3), _w("bounded", "nikolaev", c=1, d=2, W=64, opt={"cap": 1}),
+    _w("kfifo", "kb", c=2, opt={"k": 2, "segs": 2}, weight=3), _w("kfifo", "kb", c=1, d=2, W=64, opt={"k": 1, "segs": 2}), _w("kfifo", "kb", c=1, opt={"k": 1, "segs": 2, "T": 3, "m": 2, "prefill": 0}, weight=3),
+    _w("kfifo", "kf_hp", c=2, opt={"k": 2}, weight=4), _w("kfifo", "kf_ebr", c=2, opt={"k": 1}, weight=4), _w("kfifo", "kf_qsbr", c=1, d=2, W=64, opt={"k": 2}),
+    _w("deque", "grow2", c=2, weight=3), _w("deque", "fixed2", c=2, weight=3), _w("deque", "grow2", c=1, d=2, W=64), _w("deque", "grow2", c=1, opt={"thieves": 2, "s": 1}),
+    _w("lr_seqlock", "left_right", c=3, weight=2), _w("lr_seqlock", "left_right", c=2, d=2, W=0), _w("lr_seqlock", "seqlock_b16_s2", c=3, d=2), _w("lr_seqlock", "seqlock_b16_s1", c=3, d=2),
+    _w("lr_seqlock", "seqlock_b24_s2", c=2, d=2, W=0), _w("lr_seqlock", "seqlock_b16_s3", c=2, d=2),
+    _w("hm", "set_hp", opt={"ops": 0x17}, weight=3), _w("hm", "set_ebr", opt={"ops": 0x17}, weight=3), _w("hm", "set_lfrc", opt={"ops": 0x7}, weight=3), _w("hm", "set_qsbr", opt={"ops": 0x7}, weight=3),
+    _w("hm", "map_b1_memo_scr_hp", opt={"ops": 0x23}, weight=3), _w("hm", "map_b1_lfrc", opt={"ops": 0x23}, weight=3), _w("hm", "map_b2_ebr", opt={"ops": 0x23}, weight=3),
+    _w("hm", "set_hp", c=2, opt={"ops": 0x7, "keys": 1}, weight=3), _w("hm", "iset_hp", opt={"keys": 2}, weight=3), _w("hm", "iset_ebr", opt={"keys": 2}, weight=3), _w("hm", "imap_b1_memo_scr_hp", opt={"keys": 2}, weight=3),
+    _w("vy", "map_tt_i1_hp", opt={"keys": 2, "cap": 1, "ops": 0x7}, weight=3), _w("vy", "map_st_s1_hp", opt={"m": 1, "keys": 5, "prefill": 31, "cap": 128, "ops": 0x27}, weight=3),
+    _w("vy", "map_tm_i1_hp", opt={"m": 1, "keys": 5, "prefill": 31, "cap": 128, "ops": 0x27}, weight=3), _w("vy", "it_tt_i1_hp", opt={"steps": 2, "keys": 5, "prefill": 31, "readers": 1, "m": 1}, weight=3),
+    _w("vy", "map_tt_i1_ebr", opt={"m": 1, "keys": 4, "prefill": 7, "cap": 1, "ops": 0x7}, weight=3),
+] + [_w("ownership", t, weight=1) for t in ["ms_up_hp", "ram_e2_up_ebr", "ram_e1_up_hp", "nik_e1_up_hp", "nik_e2_up_ebr", "kf_k2_up_hp", "kf_k2_up_ebr", "kb_k2s2_up", "vb_s2_up", "nb_c2_up", "ms_up_lfrc"]] + \
+    [_w("guards", "snap_" + r, c=2, weight=1) for r in ["hp", "he", "qsbr", "ebr", "nebr", "debra", "lfrc"]] + \
+    [_w("queues", "%s_%s" % (q, r), c=1, variant="tsanv", weight=1) for q in ["ms", "ram_e1p1", "nik_e1p1"] for r in ["hp", "he", "qsbr", "ebr", "nebr", "debra", "lfrc"]] + \
+    [_w("reclaim", "proto_" + r, c=1, variant="tsanv", opt={"ops": 0x62}, weight=1) for r in RECL_ALL if r != "stamp"] + \
+    [run("queues", "%s_%s" % (q, r), c=2, variant="tsanv", weight=3) for q in ["ms", "ram_e1p1", "nik_e1p1"] for r in ["hp", "ebr"]] + \
+    [run("reclaim", "proto_" + r, c=1, variant="tsanv", opt={"ops": 0xee}, weight=2) for r in RECL_ALL]
+PLAN["C03"] = {
+    "quick": _c03_quick, "thorough": _c03_thorough, "budget_s": {"quick": 170, "thorough": 3000},
+    "rule": "part A (race freedom): the happens-before race detector (vector clocks fed only by the written memory orders, fences, mutexes, spawn/join) is armed in every execution "
+            "of every check C01-C18; part B (weak executions): the harness families of C01, C04-C15 re-run in wmm mode - every atomic location keeps its modification order, a "
+            "load may read any message not excluded by coherence / happens-before / seq_cst that was superseded at most W steps ago; reads-from choices are enumerated with at "
+            "most d stale reads on top of <= c preemptions; precedence between operations of different threads is happens-before; production orders (prod build, explicit fences) "
+            "and the TSAN_MEMORY_ORDER variant (tsanv build); oracles are those of the owning property",
+    "assumptions": ["view-based release/acquire + fences + seq_cst model: a strict subset of RC11-consistent executions (no load buffering, no mid-order store insertion, no spurious weak CAS failure; "
+                    "seq_cst accesses and fences are totally ordered and act as visibility barriers, which is stronger than the standard requires)",
+                    "an atomic access after an unordered plain *write* to the same location (constructor initialisation of a std::atomic member) is not reported as a race; the property speaks of plain objects"],
+}
+LEVEL_TEXT["C03"] = ("every execution of every check runs under the happens-before race detector; in addition all reads-from choices with <= d stale reads (d=1..2) inside the staleness window on "
+                     "top of all interleavings with <= c preemptions are enumerated for the harness families of the container and reclaimer properties, for both build variants")
+PLAN["C03"]["technique"] = "stateless model checking of the implementation under a view-based C++11 memory model: exhaustive enumeration of schedules (preemption-bounded) and reads-from choices (stale-read-bounded)"
+
+# ------------------------------------------------------------------------------------------------- C16
+TITLES["C16"] = "Lock-free operations finish in bounded solo steps from every reachable state"
+_SOLO = 1500
+_c16_quick = \
+    [run("queues", "%s_%s" % (q, r), c=2, solo=_SOLO) for q in ["ms", "ram_e1p1", "nik_e1p1"] for r in ["hp", "lfrc"]] + \
+    [run("queues", "%s_%s" % (q, r), c=1, solo=_SOLO) for q in ["ms", "ram_e2p0", "nik_e2p0"] for r in ["ebr", "qsbr", "stamp", "he"]] + \
+    [run("reclaim", "proto_" + r, c=1, solo=_SOLO, opt={"ops": 0xee}) for r in ["hp", "he", "qsbr", "ebr", "debra", "lfrc"]] + [run("reclaim", "proto_stamp", c=1, solo=_SOLO, opt={"ops": 0x62})] + \
+    [run("bounded", "vyukov", c=2, solo=_SOLO, opt={"cap": 2}), run("bounded", "nikolaev", c=2, solo=_SOLO, opt={"cap": 2}),
+     run("kfifo", "kb", c=2, r=1, solo=_SOLO, opt={"k": 2, "segs": 2}), run("kfifo", "kf_hp", c=1, r=1, solo=_SOLO, opt={"k": 2}),
+     run("kfifo", "kb_boundary", c=0, horizon=8000000, wall=120, solo=_SOLO, opt={"segs": 65537, "fill": 65537, "ops": 70000}),
+     run("deque", "grow2", c=2, solo=_SOLO), run("deque", "fixed2", c=2, solo=_SOLO),
+     run("lr_seqlock", "left_right", c=3, solo=_SOLO), run("lr_seqlock", "seqlock_b16_s2", c=3, solo=_SOLO), run("lr_seqlock", "seqlock_b16_s3", c=3, solo=_SOLO),
+     run("hm", "set_hp", c=2, solo=_SOLO, opt={"ops": 0x7, "keys": 1}), run("hm", "map_b1_lfrc", c=2, solo=_SOLO, opt={"ops": 0x23, "keys": 1}), run("hm", "iset_hp", c=1, solo=_SOLO, opt={"keys": 2}),
+     run("hm", "imap_b1_memo_scr_hp", c=1, solo=_SOLO, opt={"keys": 2, "m": 1}),
+     run("vy", "map_st_s1_hp", c=1, solo=_SOLO, opt={"m": 1, "keys": 5, "prefill": 31, "cap": 128, "ops": 0x7}), run("vy", "map_st_s1_hp", c=0, solo=_SOLO, opt={"T": 1, "m": 3, "keys": 5, "cap": 128, "prefill": 15, "ops": 0x3f}),
+     run("vy", "map_tm_i1_hp", c=1, solo=_SOLO, opt={"m": 1, "keys": 5, "prefill": 31, "cap": 128, "ops": 0x7})]
+_c16_thorough = \
+    [run("queues", "%s_%s" % (q, r), c=2, solo=_SOLO, weight=4 if r == "stamp" else 1) for q in ["ms", "ram_e1p1", "ram_e2p0", "nik_e1p1", "nik_e2p0"] for r in RECL_ALL] + \
+    [run("queues", "%s_lfrc" % q, c=3, solo=_SOLO, opt={"prefill": 0}, weight=6) for q in ["ms", "ram_e1p1", "nik_e1p1"]] + \
+    [run("reclaim", "proto_" + r, c=2, solo=_SOLO, opt={"ops": 0xff}, weight=8 if r == "stamp" else 3) for r in RECL_ALL] + \
+    [run("bounded", "vyukov", c=3, solo=_SOLO, opt={"cap": 2}, weight=4), run("bounded", "nikolaev", c=3, solo=_SOLO, opt={"cap": 2}, weight=4),
+     run("kfifo", "kb", c=3, r=1, solo=_SOLO, opt={"k": 2, "segs": 2, "prefill": 1}, weight=6), run("kfifo", "kf_hp", c=2, r=1, solo=_SOLO, opt={"k": 2}, weight=6),
+     run("kfifo", "kf_ebr", c=2, r=1, solo=_SOLO, opt={"k": 2}, weight=6),
+     run("kfifo", "kb_boundary", c=0, horizon=8000000, wall=120, solo=_SOLO, opt={"segs": 65537, "fill": 65537, "ops": 70000}),
+     run("deque", "grow2", c=3, solo=_SOLO, weight=4), run("deque", "fixed2", c=3, solo=_SOLO, weight=3), run("deque", "grow2", c=2, solo=_SOLO, opt={"thieves": 2, "s": 1}, weight=3),
+     run("lr_seqlock", "left_right", c=4, solo=_SOLO, weight=2), run("lr_seqlock", "seqlock_b16_s2", c=4, solo=_SOLO, weight=2), run("lr_seqlock", "seqlock_b16_s3", c=4, solo=_SOLO, weight=2),
+     run("hm", "set_hp", c=2, solo=_SOLO, opt={"ops": 0x17, "keys": 2, "prefill": 1}, weight=4), run("hm", "map_b1_lfrc", c=2, solo=_SOLO, opt={"ops": 0x23, "keys": 2, "prefill": 1}, weight=4),
+     run("hm", "iset_hp", c=2, solo=_SOLO, opt={"keys": 2}, weight=4), run("hm", "imap_b1_memo_scr_hp", c=2, solo=_SOLO, opt={"keys": 2}, weight=4), run("hm", "iset_lfrc", c=2, solo=_SOLO, opt={"keys": 2}, weight=4),
+     run("vy", "map_st_s1_hp", c=2, solo=_SOLO, opt={"m": 1, "keys": 5, "prefill": 31, "cap": 128, "ops": 0x7}, weight=6), run("vy", "map_tt_i1_hp", c=2, solo=_SOLO, opt={"m": 1, "keys": 5, "prefill": 31, "cap": 128, "ops": 0x7}, weight=6),
+     run("vy", "map_sm_s1_hp", c=1, solo=_SOLO, opt={"m": 1, "keys": 5, "prefill": 31, "cap": 128, "ops": 0x27}, weight=4)]
+PLAN["C16"] = {
+    "quick": _c16_quick, "thorough": _c16_thorough, "budget_s": {"quick": 170, "thorough": 3000},
+    "rule": "monitor on the harnesses of C01, C04-C10, C12-C14 for the operations documented as lock-free / wait-free (harnesses flag the blocking ones: strong vyukov operations, "
+            "vyukov_hash_map updates and iterators, seqlock store/update and single-slot load, left_right::update): while a thread executes such an operation, every maximal run of "
+            "its own steps without interference (from operation start or from the point it is switched in - i.e. every other thread frozen wherever the explored prefix left it, "
+            "possibly mid-operation) must reach the end of the operation within S = 1500 scheduler steps; inside such operations a detected spin does not yield, so waiting for "
+            "another thread shows up as a PROGRESS violation, never as a hang; the bound on solo steps actually observed is reported (max_solo_steps_of_a_lockfree_op)",
+    "assumptions": ["a frozen state is reachable with at most c preemptions; the solo continuation itself costs no preemption only if it is the thread's default continuation - "
+                    "states that used the whole budget are covered by the runs with the next larger bound"],
+}
+LEVEL_TEXT["C16"] = ("for every prefix of every explored interleaving (<= c preemptions) every lock-free operation started or resumed there is run solo to completion under a step bound; "
+                     "exhaustive over the enumerated programs and schedules, including complete laps around rings above 2^16 slots")
+PLAN["C16"]["technique"] = "stateless model checking of the implementation with a solo-progress monitor: exhaustive preemption-bounded schedule enumeration, every solo continuation step-bounded"
